@@ -12,6 +12,7 @@ from pytestarch.eval_structure_generation.file_import.converter import ImportCon
 from pytestarch.eval_structure_generation.file_import.file_filter import FileFilter
 from pytestarch.eval_structure_generation.file_import.import_filter import (
     ExternalImportFilter,
+    is_internal_module,
 )
 from pytestarch.eval_structure_generation.file_import.import_types import NamedModule
 from pytestarch.eval_structure_generation.file_import.importee_module_calculator import (
@@ -117,10 +118,10 @@ def _get_internal_module_prefix(
     internal and external modules. If the root and base module differ, the modules between them also need to be taken
     into account, as not-root.a.b-modules are external, but root.a.b.base-modules are internal.
     """
-    internal_module_prefix = root_path.name + "."
+    internal_module_prefix = root_path.name
 
     if _actual_difference_between_root_and_module(path_diff_between_root_and_module):
-        internal_module_prefix += path_diff_between_root_and_module
+        internal_module_prefix += "." + path_diff_between_root_and_module
 
     return internal_module_prefix
 
@@ -172,4 +173,4 @@ def _get_all_ast_modules(
 def _get_all_internal_modules(
     modules: list[str], internal_module_prefix: str
 ) -> set[str]:
-    return {m for m in modules if m.startswith(internal_module_prefix)}
+    return {m for m in modules if is_internal_module(m, internal_module_prefix)}
